@@ -19,7 +19,7 @@ reg('C11',
     title='status byte equals the summary of the registers behind it',
     src='c11_status.c', engine='mcx',
     configs={'quick': ['def', 'noinfo', 'c90', 'heap', 'def+fast'], 'thorough': ['def', 'noinfo', 'c90', 'heap', 'def+fast']},
-    deadline={'quick': 400, 'thorough': 1500},
+    deadline={'quick': 400, 'thorough': 2500},
     level=MC,
     technique='explicit-state model checking (BFS with canonical-state deduplication) of the real register machine against a 10-line summary model',
     rule={'quick': _status_rule + 'quick: sanitised run with 1 bit per register, unsanitised runs with 2 bits per register (3 for SRE), one per register group in focus; Set/ClearBits operations also with multi-bit masks; RegSet of every 16-bit value on each of the nine writable registers from 4 base states, Set/ClearBits of every mask over 4 spread bits on every prior value, a 300-entry error queue; strict-C90 build; static-heap build: every history of <= 6 operations over 8 (pushes whose text fits / does not fit / is empty, pop, clear, SYST:ERR?) on an 8-byte info heap.',
@@ -35,7 +35,7 @@ reg('C12',
     title='events are classified, latched and announced',
     src='c11_status.c', cflags=['-DC12_MODE=1'], engine='mcx',
     configs={'quick': ['def', 'noinfo', 'c90', 'def+fast'], 'thorough': ['def', 'noinfo', 'c90', 'def+fast']},
-    deadline={'quick': 400, 'thorough': 1500},
+    deadline={'quick': 400, 'thorough': 2500},
     level=MC,
     technique='explicit-state model checking of the real register machine with per-transition latch/clear/SRQ rules, plus exhaustive enumeration of all 65536 error codes',
     rule={'quick': _status_rule + 'Additionally ErrorPush of each of the 65536 codes on three ESR pre-states (class table from SCPI-99 21.8). quick bounds as C11.',
@@ -51,10 +51,10 @@ reg('C10',
     title='error queue is a bounded FIFO that marks overflow and owns its texts',
     src='c10_fifo.c', engine='mcx', ldflags=['-Wl,--wrap=strndup,--wrap=free,--wrap=malloc'],
     configs={'quick': ['def', 'noinfo', 'c90'], 'thorough': ['def', 'noinfo', 'c90']},
-    deadline={'quick': 400, 'thorough': 1200},
+    deadline={'quick': 400, 'thorough': 2000},
     level=MC,
     technique='explicit-state model checking (BFS to the fix-point) of the real queue in lock-step with a reference FIFO, with allocation faults as operations and an allocator ledger',
-    rule=('explicit-state BFS to the fix-point, one run per queue capacity (quick 1..3, thorough 1..4): operations = push of 3 codes x {no text, "a", bb"c, '
+    rule=('explicit-state BFS to the fix-point, one run per queue capacity (quick 1..4, thorough 1..6): operations = push of 3 codes x {no text, "a", bb"c, '
           'bb"c with info_len 2 (thorough: + 300-byte text)} x allocator answer {ok, NULL}, SCPI_ErrorPop (+ release of the returned text), '
           'SCPI_ErrorClear, SCPI_ErrorCount, SYST:ERR?, SYST:ERR:COUN?, *CLS, two SYST:ERR? in one message; key = wr/rd/count, all ring slots, '
           'allocator slots, registers, model queue; every transition is compared with the reference FIFO and the allocator ledger; '
@@ -62,7 +62,7 @@ reg('C10',
           'non-trivial = transition that pushes or changes the number of queued errors'),
     assumptions=['strndup/free are replaced at link time (--wrap) by a slot arena; freed and unused arena bytes are ASan-poisoned',
                  'error codes and texts outside the alphabet behave alike (the queue never inspects them)'],
-    level_text='Exhaustive for capacities 1..3 (quick) / 1..4 (thorough): the BFS reaches the fix-point of the reachable state set, so every history of any length over the operation alphabet is covered, including every placement of an allocation failure.',
+    level_text='Exhaustive for capacities 1..4 (quick) / 1..6 (thorough): the BFS reaches the fix-point of the reachable state set, so every history of any length over the operation alphabet is covered, including every placement of an allocation failure.',
     level_note='trusts the link-time allocator wrapper (all library allocations go through strndup/free) and ASan manual poisoning',
     design_ref='DESIGN.md section 3 / C10')
 
@@ -70,7 +70,7 @@ reg('C20',
     title='allocation-free build stores error texts intact or not at all',
     src='c20_heap.c', engine='mcx',
     configs={'quick': ['heap'], 'thorough': ['heap']},
-    deadline={'quick': 400, 'thorough': 1500},
+    deadline={'quick': 400, 'thorough': 4500},
     level=MC,
     technique='explicit-state model checking (BFS to the fix-point) of the real static-heap error queue against a "text or nothing" reference FIFO',
     rule=('explicit-state BFS, one run per (heap size H, queue capacity N), H = 2..8 x N = 1..3 (quick) / H = 2..12 x N = 1..4 (thorough): operations = '
@@ -88,7 +88,7 @@ reg('C13',
     title='tokenizer recognises exactly the IEEE 488.2 program-data token syntax',
     src='c13_lexer.c',
     configs={'quick': ['def'], 'thorough': ['def', 'c90']},
-    deadline={'quick': 400, 'thorough': 1500},
+    deadline={'quick': 400, 'thorough': 2000},
     level=MC, nontrivial_stat='nontrivial',
     technique='bounded-exhaustive enumeration of all input strings up to length L per recogniser, executed on the real lexer (ASan) and compared with independent reference recognisers',
     rule={'quick': 'every string of length <= L (5 or 6, per recogniser) over an alphabet with one representative per character class the recogniser distinguishes, for each of the 14 scpiLex_* recognisers, scpiParser_parseProgramData, scpiParser_parseAllProgramData and scpiParser_detectProgramMessageUnit (L=5, 17 symbols), each in 3 buffer placements (exact-size heap copy; embedded at offset 3 between attractive bytes; cursor in mid-buffer; and the embedded placement again with every byte of the alphabet of the recogniser directly behind the input), every byte value 0..255 behind the # of a block or nondecimal literal, plus grammar-generated blocks/strings/headers up to 320 bytes; non-trivial = input on which the reference recognises a token / a well-formed unit',
@@ -103,7 +103,7 @@ reg('C19',
     title='numeric and channel lists decode entry by entry exactly as written',
     src='c19_expr.c',
     configs={'quick': ['def'], 'thorough': ['def', 'c90']},
-    deadline={'quick': 400, 'thorough': 1500},
+    deadline={'quick': 400, 'thorough': 2000},
     level=MC,
     technique='bounded-exhaustive enumeration of all expression bodies up to length L x index x capacity on the real expression API (ASan), compared with a reference list grammar',
     rule={'quick': 'every expression body of length <= 6 over {1 2 0 - . : , ! @ blank A E +} between parentheses, queried at every index 0..9 (0..4 for length 6) through the three numeric-list entry functions and through the channel-list function with every capacity 0..4 (exact-size heap value arrays) and with capacity 0 announced with NULL arrays, plus generated lists of 1..8 entries x 1..5 dimensions with every range placement and lists of long numbers with signed exponents and blanks at the exponent mark; non-trivial = body that is a well-formed numeric or channel list',
@@ -119,7 +119,7 @@ reg('C03',
     title='a pattern accepts exactly the headers of its short/long-form language',
     src='c03_pattern.c',
     configs={'quick': ['def', 'c90'], 'thorough': ['def', 'c90']},
-    deadline={'quick': 400, 'thorough': 1500},
+    deadline={'quick': 400, 'thorough': 4000},
     level=MC,
     technique='bounded-exhaustive enumeration of (pattern, header) pairs on the real matcher (ASan), compared with an independent reference matcher, plus the public SCPI_Input path',
     rule={'quick': 'patterns: all 1248 patterns of 1..4 keywords taken in order from {ABcd, EFgh, IJ, KLMno}, each keyword optional and/or numeric, with/without ?, plus 44 shipped/common patterns. headers per pattern: (A) every sequence of <= 3 mnemonics over {short, long, long-letter, short+"1"} of each keyword plus an alien mnemonic x colon x ? x 2 cases; (B) every keyword subset / alien insertion / adjacent swap spelled (up to 4 mnemonics) with every combination of 5 forms per mnemonic x colon x ? x 3 cases; (C) for every numeric-suffix keyword of every pattern a correctly spelled header (short and long form) with each of 23 suffix texts behind that keyword (leading zeros, digits 8/9, 2147483647; sign, blank, tab, letter, radix prefix, exponent, point) x colon x ? x 3 cases; a second vocabulary {SYNChronization, W3GPp, RX_Level, IEEE488, W, RX} (keyword above 12 characters, digit or underscore inside the short form, keyword without lower-case part, keyword that is a prefix of another): 384 patterns of 1..2 keywords in 6 shapes; an eighth of the first-vocabulary patterns and all others additionally through SCPI_Input -> handler -> SCPI_CommandNumbers. non-trivial = header the reference accepts',
@@ -134,7 +134,7 @@ reg('C02',
     title='each message unit runs exactly the first command matching its effective header',
     src='c02_dispatch.c',
     configs={'quick': ['def', 'c90'], 'thorough': ['def', 'noinfo', 'c90']},
-    deadline={'quick': 400, 'thorough': 1500},
+    deadline={'quick': 400, 'thorough': 3000},
     level=MC,
     technique='bounded-exhaustive enumeration of (command table, message) pairs executed through SCPI_Input (ASan, tail-poisoned input buffer), compared with a reference interpreter of the header-path and first-match rules',
     rule={'quick': 'command tables: every ordered pair (110) and triple (990) of a pool of 11 overlapping patterns plus the whole pool in two orders; messages: every sequence of 1..3 units (1..2 for triples) over 31 header spellings (handlers of every second table entry fail with -200) (short/long, letter case, leading colon, optional keyword present/absent, numeric suffix, common, undefined with and without colons, undefined ones that differ from a defined keyword in the last character only) x 2 separator styles; the same for a second vocabulary of 9 patterns and 21 spellings (keywords of 13 and 15 characters, short forms holding a digit or underscore, a keyword that is a prefix of another, numeric suffix behind a 13-character keyword; ordered pairs and the whole pool in two orders); non-trivial = every message (each is compared unit by unit with the reference trace)',
@@ -149,7 +149,7 @@ reg('C05',
     title='wrong, missing or surplus parameters raise the right error, never mis-delivered',
     src='c05_params.c',
     configs={'quick': ['def', 'c90'], 'thorough': ['def', 'c90']},
-    deadline={'quick': 400, 'thorough': 1500},
+    deadline={'quick': 400, 'thorough': 2500},
     level=MC,
     technique='bounded-exhaustive enumeration of (handler signature, parameter list) pairs executed through SCPI_Input on a fresh context (ASan), compared with a model of the statement driven by the reference tokenizer',
     rule={'quick': 'signatures: every sequence of 0..2 typed reads (10 readers x mandatory/optional) x handler result OK/ERR x stop/continue after a failed read (1684 signatures); lists: every sequence of 0..3 items over 14 well-formed data items of every type (numbers with/without known/unknown suffix, nondecimal, character data, strings and blocks and expressions containing commas) and 4 malformed fragments (empty item, open string, two numbers, @) x 4 white-space styles around the commas x 5 deliveries (NL, behind a failing unit, flush, SCPI_Parse, behind another message in one call + flush); for signatures of <= 1 read additionally a handler that reports an error of its own through SCPI_ErrorPush / SCPI_ErrorPushEx; lists of 1..1000 items; the same units with the error queue already full; non-trivial = well-formed unit (the model then predicts the complete trace of reads, values and errors)',
@@ -165,7 +165,7 @@ reg('C06',
     title='responses are framed: ; between units, , between items, one terminator',
     src='c06_framing.c',
     configs={'quick': ['def', 'lf'], 'thorough': ['def', 'lf', 'c90']},
-    deadline={'quick': 400, 'thorough': 1500},
+    deadline={'quick': 400, 'thorough': 3000},
     level=MC,
     technique='bounded-exhaustive enumeration of messages x predecessor histories executed through SCPI_Input (ASan), byte-exact comparison of write()/flush() with a framing model',
     rule={'quick': 'every message of 1..5 units over 17 unit kinds (commands OK/ERR/with unread parameter; queries emitting 0/1/2/4 results of 16 rotating result types - integers in 4 bases, float, double, bool, text, mnemonic, blocks whole and streamed, ASCII and binary arrays incl. empty ones, error - then OK / ERR / ERR with own error / parameter left unread; undefined header; invalid unit; empty unit), each on a fresh context and after each of 13 predecessor messages (one leaves the error queue full); plus units with 254..1025 result items; every message of <= 3 units over 23 units handled by the handlers the library ships (*IDN? *TST? *OPC? *ESE? *ESR? *SRE? *STB? SYST:ERR? SYST:ERR:COUN? SYST:VERS? STAT:QUES? STAT:QUES:ENAB? STAT:OPER:COND? *RST *CLS *WAI *OPC *ESE STAT:QUES:ENAB STAT:PRES STUB STUB?) on a context with queued errors and event bits, compared with the same units sent one per message (differential: non-empty responses joined by ; plus one terminator); default (CR LF) and LF line-ending builds, the terminator taken from SCPI_LINE_ENDING; non-trivial = message in which at least one unit responds',
@@ -180,7 +180,7 @@ reg('C09',
     title='messages and units are isolated: nothing but status and errors carries over',
     src='c09_isolation.c',
     configs={'quick': ['def', 'heap'], 'thorough': ['def', 'noinfo', 'heap', 'c90']},
-    deadline={'quick': 400, 'thorough': 1500},
+    deadline={'quick': 400, 'thorough': 2000},
     level=MC,
     technique='bounded-exhaustive differential enumeration: every ordered pair of messages executed on the real parser (ASan), trace of B after A compared with B on a fresh context',
     rule={'quick': 'message set M = 49 single units (three address table entries without callback) + all 2401 ordered unit pairs (compound paths, common commands, every parameter kind incl. malformed lists and dangling comma, queries that succeed / fail midway / leave a block unfinished / write block data without header, invalid and incomplete units), each NL-terminated; ordered pairs (A, B): all |M|^2 = 4.7 M, plus A and an unterminated single-unit B in one call executed by a flush; compared: handler invocations with effective header and decoded parameters, output bytes, flushes, error callbacks, SCPI_Input result; histories with an input-buffer overrun; static-heap build: single-unit pairs and every history of <= 5 messages over {two undefined headers, SYST:ERR?, *CLS, two undefined headers in one message} on a 16-byte info heap, the queue read back and *CLS, then B whose queued error TEXTS are compared with B on a fresh context; non-trivial = pair whose A executed a handler or raised an error',
@@ -195,7 +195,7 @@ reg('C08',
     title='behaviour depends on the byte stream, not on how it is cut into input calls',
     src='c08_chunking.c',
     configs={'quick': ['def', 'heap'], 'thorough': ['def', 'heap']},
-    deadline={'quick': 400, 'thorough': 1500},
+    deadline={'quick': 400, 'thorough': 2500},
     level=MC,
     technique='exhaustive enumeration of input segmentations (schedules) of bounded streams on the real SCPI_Input (ASan, tail-poisoned buffer), differential against the byte-at-a-time schedule',
     rule={'quick': 'streams: every concatenation of 1..3 messages of a 16-message alphabet (block with embedded NL and ; as first and as second parameter, block with NUL bytes, quoted string with embedded ; and with embedded NL, empty units, CR LF, bare CR, undefined header, missing parameter, dangling comma, trailing blanks, exponent number, common+compound), optionally followed by an unterminated unit (5 tails); schedules: EVERY partition for streams <= 14 bytes, else every partition with <= 2 cut points + every uniform chunk size + all-at-once, in a 256-byte and an exactly-fitting input buffer, against one byte per call; plus the zero-length-call clause on every prefix; static-heap build: the streams of <= 2 messages and every stream of <= 5 messages over {10-character undefined header, 8-character undefined header, SYST:ERR?, 4-character undefined header} with a 24-byte info heap (texts stored, released, wrapping); non-trivial = every schedule run (each is compared with the reference schedule)',
@@ -210,7 +210,7 @@ reg('C14',
     title='integer-to-text conversion is exact for every value, base and buffer size',
     src='c14_inttostr.c',
     configs={'quick': ['def', 'def+fast'], 'thorough': ['def', 'c90', 'def+fast']},
-    deadline={'quick': 400, 'thorough': 1500},
+    deadline={'quick': 400, 'thorough': 2500},
     level=MC,
     technique='exhaustive enumeration of the 32-bit value space (thorough; one value per 64-value stratum in quick) and of a structured 64-bit set x bases x signedness x every buffer length 0..70 on the real formatter, compared with an independent formatter',
     rule={'quick': 'sanitised: values m*2^s (m < 512, s step 3) and complements, powers of each base +-2, extremes, for 32 and 64 bit x 10 base arguments x signed/unsigned with a roomy buffer through the private and the public functions, then a boundary set x 5 bases x every buffer length 0..70 (canaries + exact-size heap block); unsanitised: 2^26 32-bit values (one per 64-value stratum) x 4 bases x signed/unsigned; non-trivial = every value case (each is compared digit by digit with the reference)',
@@ -267,7 +267,7 @@ reg('C07',
     title='every value the library formats as a result decodes back to the same value',
     src='c07_roundtrip.c',
     configs={'quick': ['def', 'dtostre', 'def+fast'], 'thorough': ['def', 'dtostre', 'def+fast']},
-    deadline={'quick': 400, 'thorough': 1500},
+    deadline={'quick': 400, 'thorough': 2500},
     level=MC,
     technique='bounded-exhaustive round trip through the real code both ways (SCPI_Result* -> captured response -> SCPI_Input -> SCPI_Param*), exhaustive over the 8/16-bit spaces and, at token level, over the 32-bit space',
     rule={'quick': 'through SCPI_Input (ASan): all 2^8 and 2^16 values of the 8/16-bit types in bases 2/8/10/16; 32/64-bit values m*2^s (m < 256) and complements and powers of each base +-2; booleans; every string of length <= 5 over {a " \' ; NL , blank DEL} and strings of 7..300 characters x 4 fills; blocks of every length 0..1100 x 6 byte patterns; 14 decimal mantissas x every exponent -323..308 x sign and every power of two (+ predecessor) as double and float; ASCII arrays of 0..5 elements of 6 types and Int32 arrays of 254..1000 elements; a block (one-shot, and streamed in pieces of 1/3/7/64 bytes) followed by further items; every integer, float and double response is decoded a second time with SCPI_Parameter + SCPI_ParamToXxx and must give the same value. Token level (-O2): one value per 64-value stratum of the 32-bit space x {Int32, UInt32 base 2/8/10/16}; non-trivial = round trip whose decoded value was compared',
@@ -282,7 +282,7 @@ reg('C16',
     title='floating-point text keeps the promised number of significant digits',
     src='c16_floattext.c', py='py_c16.py',
     configs={'quick': ['def', 'dtostre'], 'thorough': ['def', 'dtostre']},
-    deadline={'quick': 400, 'thorough': 1500},
+    deadline={'quick': 400, 'thorough': 2000},
     level=MC,
     technique='complete enumeration of a structured finite value set x every decimal exponent x every precision on the real formatters, compared with Python\'s independent correctly rounded dtoa (printf build) and checked in exact rational arithmetic (built-in formatter)',
     rule={'quick': 'values: decimal mantissas of 1..4 digits over {0,1,4,5,9} (the 3- and 4-digit ones on every 4th exponent) and 16 rounding-boundary mantissas (d.ddd5 at the 15th / 6th digit) with both neighbouring doubles, x every decimal exponent -323..308, all powers of two with both neighbours, subnormals, extremes, both signs; doubles and the float32 roundings of the same literals. printf build: exact string comparison with %.15g / %.6g for SCPI_DoubleToStr, SCPI_FloatToStr, SCPI_ResultDouble, SCPI_ResultFloat; the same text must come out of an exactly fitting buffer (strlen + 1 bytes) and of SCPI_NumberToStr without and with a unit. Built-in build: SCPI_dtostre at precisions 1, 6, 15 (every 4th value: all 1..15) checked exactly; non-trivial = value whose text was compared / record checked',
@@ -297,7 +297,7 @@ reg('C04',
     title='numeric parameters decode to the value their literal denotes',
     src='c04_numeric.c', py='py_c04.py',
     configs={'quick': ['def', 'c90'], 'thorough': ['def', 'c90']},
-    deadline={'quick': 400, 'thorough': 1500},
+    deadline={'quick': 400, 'thorough': 2000},
     level=MC,
     technique='complete enumeration of a grammar-derived finite literal set executed through SCPI_Input on the real readers (ASan), compared bit for bit with results computed in exact rational arithmetic (Python Fractions)',
     rule={'quick': 'decimal literals: sign {none,+,-} x integer and fraction parts (digit strings of length 0..2 over {0,1,5,9}, with and without point) x exponent {none} u ({none, blank, 2 blanks, tab} x {E,e} x {none, blank} x {none,+,-} x 12 exponent digit strings up to 323), ~0.8 M literals; long mantissas of every length 1..25 x 6 fills x point positions x 8 exponents; rounding traps (2^53+1, 2^24+1, half-subnormals, overflow boundaries); integer literals around every type limit; nondecimal: every #H/#Q/#B literal of <= 4 digits (#B <= 10) and every length up to 64 bits x 5 fills; each through SCPI_ParamDouble/Float/Number and (integer literals, nondecimal) the four integer readers, and a second time through SCPI_Parameter followed by the SCPI_ParamToXxx twin of each reader. Plus every unit-table row x every letter-case combination x {0,1,2} blanks x 8 literals (four with blanks or a tab at the exponent mark), golden multipliers of IEEE 488.2 table 7-2, and every special mnemonic (short/long) in every letter case; non-trivial = literal whose every decoded value matched the exact expectation',
@@ -312,7 +312,7 @@ reg('C01',
     title='no out-of-bounds access, undefined behaviour or hang on any input stream',
     src='c01_memsafe.c',
     configs={'quick': ['def', 'heap', 'dtostre'], 'thorough': ['def', 'noinfo', 'heap', 'dtostre', 'c90']},
-    deadline={'quick': 400, 'thorough': 1700},
+    deadline={'quick': 400, 'thorough': 3000},
     level=MC,
     technique='bounded-exhaustive enumeration of input byte strings x input-buffer sizes x segmentations x residues, executed on the real library under ASan + UBSan with exact-size heap blocks and a tail-poisoned input buffer',
     rule={'quick': 'D1: every byte string of length <= 4 over 28 bytes (one per character class incl. NUL, 0x80, 0xFF) x every input-buffer size 2..len+2 x {whole, every single split point, one byte per call} + zero-length flush x {fresh context, 6 residues}, omnivore handlers applying every SCPI_ParamTo*/Expr*/Result*/ToStr API to every token; D2: "A <p> NL" for every p of length <= 4 over 20 bytes through the omnivore and each of 18 typed readers (two deliveries); D3: every D1 string NUL-terminated to SCPI_Parse; D4: every history of <= 4 messages over 9 steps (undefined headers of length 1..6, SYST:ERR?, *CLS) on one context, info heap sizes 5..12; D5: "A " + every string of length <= 5 over 11 token-forming bytes in exactly fitting buffers; D6: "A <token> NL" for every token length 1..400 of 10 token shapes (digits, digits with blank exponent, fraction with unit, mnemonic with digits and underscores, quoted string with doubled quotes, block with embedded NL, channel list, nondecimal, suffix program data, comma list) through the omnivore and 8 typed readers in exactly fitting buffers; D7: 12312 decimal literals that round up at the 6th / 15th digit when echoed (runs of 0..18 nines / 1000..0 / 1999..9, point at three places, six closing digit strings, six exponents, both signs) through the omnivore and the float/double/number/array readers; D8: every single-byte substitution and insertion (all 256 byte values) at every position of 16 well-formed messages that together use every token kind, whole into an exactly fitting buffer and split at the mutated byte into a 9-byte buffer; error ring of 2 entries; default and static-heap (9-byte heap) builds, and the built-in-dtostre build with D1/D2 shortened (it differs only in result formatting); non-trivial = (string, buffer size) case that reached a handler',
